@@ -1192,8 +1192,10 @@ def mask_sift_second_layer(IA, mask_freqs, sift_args=None):
 
     if (sift_args is None):
         sift_args = {'max_imfs': IA.shape[1]}
-    elif ('max_imfs' not in sift_args):
-        sift_args['max_imfs'] = IA.shape[1]
+    else:
+        sift_args = sift_args.copy()  # Don't work in place...
+        if ('max_imfs' not in sift_args):
+            sift_args['max_imfs'] = IA.shape[1]
 
     imf2 = np.zeros((IA.shape[0], IA.shape[1], sift_args['max_imfs']))
 
